@@ -174,3 +174,34 @@ def expected_end(template, s, e):
     if cand < s:
         cand = cand + SUPERIOR[lead]
     return cand
+
+
+WIDTH = {"year": 4, "year2": 2, "month": 2, "day": 2, "doy": 3, "hour": 2, "minute": 2,
+         "second": 2, "millisecond": 3}
+
+
+def model_regex(template, users=None):
+    """Independent reading of 'a name matches the template': literals are literal (the
+    asterisk is the documented wildcard), temporal fields are fixed-width digits, user
+    placeholders match their regex / one of their values / anything non-empty."""
+    users = users or {}
+    out, pos = "", 0
+    for m in PLACEHOLDER.finditer(template):
+        lit = template[pos:m.start()]
+        out += ".*?".join(re.escape(part) for part in lit.split("*"))
+        name = m.group(1)
+        base = name[4:] if name.startswith("end_") else name
+        if name in TIME_FIELDS:
+            out += r"\d{%d}" % WIDTH[base]
+        else:
+            rx = users.get(name)
+            if rx is None:
+                out += "(?:.+?)"
+            elif isinstance(rx, (list, tuple)):
+                out += "(?:" + "|".join(rx) + ")"
+            else:
+                out += "(?:" + rx + ")"
+        pos = m.end()
+    lit = template[pos:]
+    out += ".*?".join(re.escape(part) for part in lit.split("*"))
+    return re.compile(out)
